@@ -132,3 +132,75 @@ impl Reporter {
         }
     }
 }
+
+/// Violations grouped by signature: exact count plus the first few replay cases per signature,
+/// so that frequent known findings can never crowd out a new signature.
+#[derive(Default, Clone)]
+pub struct SigBag {
+    pub map: BTreeMap<String, (u64, Vec<Value>)>,
+}
+impl SigBag {
+    pub fn push(&mut self, item: (String, Value)) {
+        let e = self.map.entry(item.0).or_insert((0, Vec::new()));
+        e.0 += 1;
+        if e.1.len() < 2 {
+            e.1.push(item.1);
+        }
+    }
+    pub fn len(&self) -> usize {
+        self.map.len()
+    }
+    pub fn is_empty(&self) -> bool {
+        self.map.is_empty()
+    }
+    pub fn total(&self) -> u64 {
+        self.map.values().map(|v| v.0).sum()
+    }
+    pub fn first_of(&self, sig: &str) -> Option<&Value> {
+        self.map.get(sig).and_then(|v| v.1.first())
+    }
+    pub fn any_first(&self) -> Option<(&String, &Value)> {
+        self.map.iter().next().and_then(|(k, v)| v.1.first().map(|r| (k, r)))
+    }
+    pub fn merge(&mut self, other: SigBag) {
+        for (k, (n, rs)) in other.map {
+            let e = self.map.entry(k).or_insert((0, Vec::new()));
+            e.0 += n;
+            for r in rs {
+                if e.1.len() < 2 {
+                    e.1.push(r);
+                }
+            }
+        }
+    }
+    pub fn to_json(&self) -> Value {
+        Value::Array(
+            self.map
+                .iter()
+                .map(|(k, (n, rs))| serde_json::json!({"sig": k, "count": n, "replays": rs}))
+                .collect(),
+        )
+    }
+}
+
+impl Reporter {
+    /// Merge a worker's `SigBag::to_json()` output.
+    pub fn report_bag(&mut self, bag: &Value) {
+        for e in bag.as_array().map(|a| a.as_slice()).unwrap_or(&[]) {
+            let sig = e["sig"].as_str().unwrap_or("");
+            let n = e["count"].as_u64().unwrap_or(1);
+            let first = e["replays"].get(0).cloned().unwrap_or(Value::Null);
+            let known = self.report(sig, first);
+            if n > 1 {
+                if known {
+                    *self.known_hit.entry(sig.to_string()).or_insert(0) += n - 1;
+                } else {
+                    self.violations += n - 1;
+                }
+            }
+        }
+    }
+    pub fn report_sigbag(&mut self, bag: &SigBag) {
+        self.report_bag(&bag.to_json());
+    }
+}
